@@ -369,7 +369,8 @@ def body(ctx):
     guards = guard_table(C.REPO)
     stats = {"kernel_bit_equal": 0, "kernel_within_tol": 0, "wrapper_bit_equal": 0, "wrapper_within_tol": 0,
              "rat_cases": 0, "variants": 0, "periods_checked": 0, "periods_nonmissing": 0, "final_period_returned": 0, "malformed_differences": 0,
-             "stored_index_cases": 0, "stored_index_skipped": 0, "history_steps": 0}
+             "stored_index_cases": 0, "stored_index_skipped": 0, "history_steps": 0,
+             "long_prescreened": 0, "long_model_slices": 0}
 
     # ---- the Cython boundary: record the arguments, pad the arrays with a sentinel
     class Proxy:
@@ -660,9 +661,128 @@ def body(ctx):
                           "returned": (ref[1] if ref[0] == "err" else enc_vals(ref[1][:6]))}
                   if len(secs) <= 8 and nontrivial else None)
 
+    I64 = np.int64
+
+    def run_long_case(case, tag):
+        """few observations over decades: several 10^5 .. 10^6 periods, so that i*P and hstartsec + i*P pass 2^31 and
+        2^32 (and, for stamps before 1970, -2^31 and 0). The kernel is called directly (and dutils.var2h when
+        case["wrapper"]); the oracle is exact on a sample of period indices (ends, both sides of every power-of-two
+        crossing, random) and a float pre-screen of ALL periods lying strictly inside one interval picks further
+        indices for the exact oracle; the model is asked for slices around the crossings (origin moved to period k)."""
+        secs, vals = case["secs"], dec_vals(case["vals"])
+        P, rain, maxgap, hstart, nvalh = case["P"], case["rain"], case["maxgap"], case["hstart"], case["nvalh"]
+        scale = max([abs(v) for v in vals if not isnan(v)] + [1.0])
+        ex = Exact(secs, vals, P, rain, maxgap)
+        sources = []
+        ierr, hv = call_kernel(P, rain, maxgap, hstart, nvalh, secs, vals)
+        if ierr != 0:
+            ctx.finding("kernel/error_on_sorted_input", "c_var2h returns an error code on a non-decreasing series "
+                        "whose first stamp is not later than the origin", {**case, "ierr": ierr})
+        else:
+            arr = np.array(hv[:max(nvalh, 0)], dtype=np.float64)
+            if nvalh >= 1 and arr[-1] == SENT:
+                arr[-1] = np.nan
+            if hv[max(nvalh, 0)] != SENT:
+                ctx.finding("kernel/write_past_hvalues", "c_var2h wrote past hvalues", dict(case))
+            if np.any(arr == SENT):
+                ctx.finding("kernel/period_not_written", "a period below nvalh-1 was not written",
+                            {**case, "period": int(np.argmax(arr == SENT))})
+            sources.append(("kernel", hstart, arr))
+        if case.get("wrapper"):
+            res, rec = call_wrapper(secs, vals, P, rain, maxgap, case.get("unit", "us"), case.get("tz"))
+            if res[0] == "err":
+                ctx.finding("var2h/error_on_sorted_input", "dutils.var2h raises on a non-decreasing series",
+                            {**case, "error": res[1]})
+            elif res[1]:
+                h0 = res[2][0]
+                if res[2][-1] != h0 + (len(res[1]) - 1) * P or res[2][len(res[1]) // 2] != h0 + (len(res[1]) // 2) * P \
+                        or not res[3] or not secs[0] <= h0:
+                    ctx.finding("var2h/index_not_periods", "the returned index is not origin + i*period",
+                                {**case, "index": res[2][:3], "origin": h0})
+                if rec is not None and rec["varsec"] != secs:
+                    ctx.finding(f"var2h/epoch_seconds_wrong/unit={case.get('unit', 'us')}",
+                                "the seconds passed to the kernel are not the wall-clock epoch seconds of the index",
+                                {**case, "passed": rec["varsec"][:5]})
+                sources.append(("var2h", h0, np.array(res[1], dtype=np.float64)))
+        nontrivial = False
+        sa = np.array(secs, dtype=I64)
+        loose = np.array(ex.loose_bad, dtype=bool)
+        for entry, h0, arr in sources:
+            n = len(arr)
+            if n == 0:
+                continue
+            marks = [0, n - 1, (2 ** 31 - 1) // P, (2 ** 32 - 1) // P]
+            for X in (2 ** 31, 2 ** 32, 0, -2 ** 31):
+                marks.append(-((h0 - X) // P))          # first i with h0 + i*P >= X
+            idxs = set()
+            for t in marks:
+                idxs.update(range(t - 5, t + 14))
+            idxs.update(rng.randrange(n) for _ in range(120))
+            t1 = (2 ** 31 - 1) // P
+            if n > t1 + 1:
+                idxs.update(rng.randrange(t1, n) for _ in range(120))
+            # float pre-screen of every period strictly inside one valid interval, and of every period past the data
+            starts = I64(h0) + np.arange(n, dtype=I64) * I64(P)
+            ends = starts + I64(P)
+            j = np.searchsorted(sa, starts, side="right") - 1
+            inside = (j >= 0) & (j < len(sa) - 1)
+            jj = np.clip(j, 0, len(sa) - 2)
+            inside &= (starts > sa[jj]) & (ends < sa[jj + 1]) & ~loose[jj]
+            va = np.array(vals, dtype=np.float64)
+            with np.errstate(all="ignore"):
+                ln = (sa[jj + 1] - sa[jj]).astype(np.float64)
+                if rain:
+                    want = va[jj + 1] * P / ln
+                else:
+                    mid = (starts - sa[jj]).astype(np.float64) + P / 2.0
+                    want = va[jj] + (va[jj + 1] - va[jj]) / ln * mid
+                bad = inside & ~(np.abs(arr - want) <= 1e-7 * (scale + np.abs(want)))
+                past = (ends > sa[-1]) & ~np.isnan(arr)
+            for mask in (bad, past):
+                hit = np.flatnonzero(mask)
+                idxs.update(int(x) for x in hit[:3])
+                idxs.update(int(x) for x in hit[-2:])
+            stats["long_prescreened"] += int(n)
+            reported = set()
+            for i in sorted(x for x in idxs if 0 <= x < n):
+                h = float(arr[i])
+                s0 = h0 + i * P
+                verdicts, want_i = period_verdicts(ex, s0, s0 + P, h, scale)
+                if i == n - 1:
+                    verdicts = [v for v in verdicts if v[0] != "unexpected_missing"]
+                if want_i is not None:
+                    nontrivial = True
+                stats["periods_checked"] += 1
+                for suffix, what, extra in verdicts:
+                    if suffix in reported:
+                        continue
+                    reported.add(suffix)
+                    ctx.finding(f"{entry}/{suffix}", what,
+                                {**case, "kind": "long", "period": i, "start": s0, "end": s0 + P,
+                                 "i_times_P": i * P, "returned": None if isnan(h) else h, **extra})
+        # model slices around the crossings: the kernel with its origin moved to period k computes the same periods
+        if sources and sources[0][0] == "kernel":
+            arr = sources[0][2]
+            m = 10
+            ks = {(2 ** 31 - 1) // P - 3, (2 ** 32 - 1) // P - 3, 0, max(len(arr) - m - 2, 0)}
+            for X in (2 ** 31, 2 ** 32, 0, -2 ** 31):
+                ks.add(-((hstart - X) // P) - 3)
+            for k in sorted(ks):
+                if 0 <= k and k + m <= nvalh - 1:
+                    reqs.append(f"kernel {P} {rain} {maxgap} {C.f2h(EPS)} {hstart + k * P} {m + 1} {C.ilist(secs)} {C.flist(vals)}")
+                    pend.append(("kslice", [float(x) for x in arr[k + 1:k + m]],
+                                 {**case, "slice_from_period": k, "_wellformed": True}, scale))
+                    stats["long_model_slices"] += 1
+        ctx.count(("long", P, rain, maxgap, hstart, nvalh, tuple(secs), tuple(case["vals"])), nontrivial,
+                  f"long/{tag}/P={P}/rain={rain}" + ("/wrapper" if case.get("wrapper") else ""),
+                  sample={"entry": "c_var2h (long span)", "P": P, "rainfall": rain, "maxgapsec": maxgap, "hstartsec": hstart,
+                          "nvalh": nvalh, "varsec": secs[:8], "varvalues": case["vals"][:8]} if nontrivial else None)
+
     def run_case(case, tag):
         if case.get("kind") == "wrapper":
             run_wrapper_case(case, tag)
+        elif case.get("kind") == "long":
+            run_long_case(case, tag)
         else:
             run_kernel_case(case, tag)
 
@@ -932,6 +1052,41 @@ def body(ctx):
                              "gen": f"history/{skind}/" + ">".join(trail)}, "history", bufs=bufs)
             stats["history_steps"] += 1
 
+    # ---------------- long spans: i*P and hstartsec + i*P beyond 32 bits
+    YEAR = 31557600
+    long_cfgs = [("epoch70", 0, (69, 75), 3600), ("epoch70", 0, (69, 75), 1800), ("y2040", 2208988800, (69, 75), 3600),
+                 ("y1900", -2208988800, (69, 75), 3600), ("y1900x140", -2208988800, (137, 142), 3600),
+                 ("y2100short", 4102444800, (0, 0), rng.choice([1800, 3600])),
+                 ("y1890short", -2524521600, (0, 0), rng.choice([1800, 3600])),
+                 ("y2030x12", 1893456000, (9, 14), 1800)]
+    for rep in range(ctx.scale(1, 4)):
+        for name, base, (y0, y1), P in long_cfgs:
+            first = base + rng.randrange(0, 30) * 86400 + rng.choice([0, 0, 1, 1799, 1800, rng.randrange(3600)])
+            span = rng.randint(y0 * YEAR, y1 * YEAR + 86400) if y1 else rng.randint(3, 40) * 3600 + rng.randrange(3600)
+            n = rng.choice([2, 3, 4, 6, 12, 20])
+            while span / (n - 1) > 0.8 * (2 ** 31 - 1):
+                n += 1
+            cuts = sorted(rng.randrange(1, span) for _ in range(n - 2))
+            secs = [first] + [first + c for c in cuts] + [first + span]
+            gaps = [b - a for a, b in zip(secs, secs[1:])]
+            if max(gaps) > 2 ** 31 - 1:
+                secs = [first + (span * k) // (n - 1) for k in range(n)]
+                gaps = [b - a for a, b in zip(secs, secs[1:])]
+            maxgap = max(max(gaps), 3600)
+            if rng.random() < 0.25 and len(gaps) > 2:
+                maxgap = max(sorted(gaps)[-2], 3600)        # the longest interval is invalid
+            vals = [rng.uniform(0.5, 100) for _ in secs]
+            if rng.random() < 0.2 and n > 3:
+                vals[rng.randrange(1, n - 1)] = float("nan")
+            rain = rng.choice([0, 0, 1])
+            hs = rng.choice([origin_of(first), origin_of(first), first])
+            nv = int((secs[-1] - first) / P) + rng.choice([0, 0, 1])
+            wr = name in ("epoch70", "y2040", "y1900", "y2100short", "y1890short", "y2030x12") and (rep == 0 or rng.random() < 0.5)
+            unit = rng.choice(["s", "ms", "us"] + (["ns"] if -9e9 < secs[0] and secs[-1] < 9.2e9 else []))
+            run_long_case({"kind": "long", "secs": secs, "vals": enc_vals(vals), "P": P, "rain": rain, "maxgap": int(maxgap),
+                           "hstart": int(hs), "nvalh": nv, "wrapper": wr, "unit": unit,
+                           "tz": rng.choice([None, None, "UTC", "+10:00"]), "gen": "long/" + name}, name)
+
     # ---------------- malformed stream
     for it in range(ctx.scale(300, 3000)):
         maxgap = rng.choice([3600, 86400])
@@ -987,6 +1142,10 @@ def body(ctx):
                         (t == "nan") == isnan(a) and (t == "nan" or
                                                       abs(Fraction(a) - Fraction(t)) <= 1e-12 * len(case["secs"]) * (scale + abs(a)))
                         for t, a in zip(toks, impl))
+        elif kind == "kslice":
+            if rep.startswith("ok "):
+                mv = [C.h2f(t) for t in C.parse_list(rep[3:])]
+                ok, bit = compare_lists(impl, mv[1:], scale)
         elif kind == "wrapperidx":
             parts = rep.split(" ")
             msecs = [int(t) for t in C.parse_list(parts[-1])] if len(parts) >= 3 else None
